@@ -221,18 +221,21 @@ def check_props_file(prop_file_rel, timeout=600):
 # evaluating the model inside Coq
 # --------------------------------------------------------------------------
 _CASE_DIR = None
+_CASE_LOCK = __import__("threading").Lock()
 
 
 def _case_dir():
     """per-process scratch directory (two checks of one property may run concurrently)"""
     global _CASE_DIR
-    if _CASE_DIR is None:
-        import atexit
-        import shutil
-        _CASE_DIR = os.path.join(BUILD, "cases", "p%d" % os.getpid())
-        os.makedirs(_CASE_DIR, exist_ok=True)
-        if not os.environ.get("VERIF_KEEP_CASES"):
-            atexit.register(lambda: shutil.rmtree(_CASE_DIR, ignore_errors=True))
+    with _CASE_LOCK:
+        if _CASE_DIR is None:
+            import atexit
+            import shutil
+            d = os.path.join(BUILD, "cases", "p%d" % os.getpid())
+            os.makedirs(d, exist_ok=True)
+            if not os.environ.get("VERIF_KEEP_CASES"):
+                atexit.register(lambda: shutil.rmtree(d, ignore_errors=True))
+            _CASE_DIR = d  # published only after the directory exists
     return _CASE_DIR
 
 
